@@ -461,10 +461,10 @@ pub fn run_hx_plus_family(prop: &'static str, tier: &str) -> Outcome {
     let (acc, what) = match prop {
         "C05" => (crate::gen::families::run_c05_family(tier), "allocator families: stores of capacity 1, 2, 9, 10, 12, 17, 33, 64, 300, 1024 with 0-2 ids handed out first and a run of 0..39 explicitly added vertices right above the position, then up to 6 next_id()/add(next_id()) calls, each judged by the model that keeps the set of returned ids; plus 6 scripts with variables (succeeding and failing at different commands) x 2 capacities: the ids their variables got must not come again after the vertices are collected; plus merges of graphs that are not trees (every right graph of 2 or 3 vertices over 3 labels - quick: vertex 2 has no outgoing edges - onto 452 left shapes: 0..3 kids created by add(next_id()) or add(position+1/+2), every injective labelling, optional grandchild), then 3 next_id() calls with and without add: each id must be below the capacity, absent, and not handed out or created before (judged on the real graph alone, no model of the fold)"),
         "C08" => (crate::gen::families::run_swap_family("C08", Op::ReloadSwap), "k = 1..=14 groups alive (the 14th uses the last usable slot) with unread, read and ungrouped data, then save+load (once or three times in a row), then everything is read in either order; oracle: the reference model in lock-step after every call"),
-        "C10" => (crate::gen::families::run_swap_family("C10", Op::CloneSwap), "k = 1..=14 groups alive (the 14th uses the last usable slot) with unread, read and ungrouped data, then clone() (once or three times in a row), then everything is read in either order; oracle: the reference model in lock-step after every call"),
+        "C10" => (crate::gen::families::run_swap_family("C10", Op::CloneSwap), "k = 1..=14 groups alive (the 14th uses the last usable slot) with unread, read and ungrouped data, then clone() - or clone_from() into an object that was used before - (once or three times in a row), then everything is read in either order; oracle: the reference model in lock-step after every call"),
         "C02" => (crate::gen::families::run_c02_family(tier), "14 groups alive at once formed through either bind arm with put before/after the bind and drained in both orders; and every way to grow one group to exactly 16 members (each of the 14 joins through either bind arm: 2^14 patterns) next to a bystander group and an ungrouped vertex, data on one or two members (position derived from the pattern), put before or after the join, overwriting put, both read orders; oracle: the reference model in lock-step after every call"),
         "C03" => (crate::gen::families::run_c03_sweep(tier), "value sweep: 8 short histories (bind, rebind, two labels, put/read twice, overwrite, re-put, collection elsewhere, grouped data) x every data length 0..=17 (three contents each: mixed bytes, leading 00 / all 00, leading FF / all FF) x 40 labels (Alpha 0/1/10/255/256/MAX, single ASCII, Greek and 4-byte characters, texts of 2..8 characters incl. near-duplicates) x Sodg<1>, Sodg<2>, Sodg<16>"),
-        _ => (crate::gen::families::run_c06_family(tier), "slot table at full scale: create 14 groups (all usable slots), kill a subset (2^14 occupancy patterns; quick: every third, one of the four (kill order, put-before/after-bind) combinations each; thorough: all), then 45 create-put-read cycles over a rotating set of 3 id pairs (one of them recycled ids) with the remaining 0..13 groups alive; plus runs of 150/300 cycles for every number 0..=13 of groups kept alive; oracle: the reference model in lock-step after every call"),
+        _ => (crate::gen::families::run_c06_family(tier), "slot table at full scale: create 14 groups (all usable slots), kill a subset (2^14 occupancy patterns; quick: every third, one of the four (kill order, put-before/after-bind) combinations each; thorough: all), then 45 create-put-read cycles over a rotating set of 3 id pairs (one of them recycled ids) with the remaining 0..13 groups alive; plus runs of 150/300 cycles for every number 0..=13 of groups kept alive (4 cycle variants, one of which hands the graph over to a used object by clone_from() between the put and the read of every 4th cycle); oracle: the reference model in lock-step after every call"),
     };
     if acc.failures.iter().any(|f| f.signature.starts_with("machinery:")) {
         o.machinery.push(format!("the directed family generated a call outside the limits: {}", acc.failures.iter().find(|f| f.signature.starts_with("machinery:")).unwrap().summary));
